@@ -91,6 +91,8 @@ def plan(tier, seed):
     for j in range(3):
         specs.append({"name": f"dropped-index-generations-{j}", "kind": "generations", "schemes": gen.SCHEMES[j::3],
                       "scheme": gen.SCHEMES[j], "rounds": 1 if tier == "quick" else 8, "generations": 60, "budget_s": 120})
+        specs.append({"name": f"interrupted-and-repeated-{j}", "kind": "interrupted", "schemes": gen.SCHEMES[j::3],
+                      "scheme": gen.SCHEMES[j], "rounds": 1 if tier == "quick" else 6, "budget_s": 150})
     return specs
 
 
@@ -366,6 +368,11 @@ def run_config(scheme, label, field, vclass, cfg, acc, rng, deleted=None):
 
 
 def run_shard(spec, acc, ctx):
+    if spec.get("kind") == "interrupted":
+        from props import _search_engine as eng
+        eng.run_interrupted(spec, acc, ctx, "both", sig_prefix="silent-")
+        acc.count("cases", acc.counters.get("interrupted.repeated_calls_compared", 0))
+        return
     if spec.get("kind") == "generations":
         from props import _search_engine as eng
         eng.run_generations(spec, acc, ctx, "both", sig_prefix="silent-")
